@@ -1,5 +1,7 @@
 import TinsModel.Wire.L2.Family
 import TinsModel.Wire.Ip.Family
+import TinsModel.Wire.Ip6.Family
+import TinsModel.Wire.Icmp.Family
 import TinsModel.Wire.Transport.Family
 import TinsModel.Wire.App.Family
 import TinsModel.Wire.Wifi.Family
@@ -13,6 +15,8 @@ inductive AnyObj
   | raw (payload : Bytes)
   | l2 (o : L2.Obj)
   | ip (o : Ip.Obj)
+  | ip6 (o : Ip6.Obj)
+  | icmp (o : Icmp.Obj)
   | tr (o : Transport.Obj)
   | app (o : App.Obj)
   | wifi (o : Wifi.Obj)
@@ -24,20 +28,20 @@ namespace AnyObj
 
 def info : AnyObj → String × Fields
   | raw p => ("RawPDU", [("payload", toHexStr p)])
-  | l2 o => L2.info o | ip o => Ip.info o | tr o => Transport.info o | app o => App.info o | wifi o => Wifi.info o
+  | l2 o => L2.info o | ip o => Ip.info o | ip6 o => Ip6.info o | icmp o => Icmp.info o | tr o => Transport.info o | app o => App.info o | wifi o => Wifi.info o
 
 def hdr : AnyObj → Nat
   | raw p => p.length
-  | l2 o => L2.hdr o | ip o => Ip.hdr o | tr o => Transport.hdr o | app o => App.hdr o | wifi o => Wifi.hdr o
+  | l2 o => L2.hdr o | ip o => Ip.hdr o | ip6 o => Ip6.hdr o | icmp o => Icmp.hdr o | tr o => Transport.hdr o | app o => App.hdr o | wifi o => Wifi.hdr o
 
 def trl : AnyObj → Nat → Nat
   | raw _, _ => 0
-  | l2 o, n => L2.trl o n | ip o, n => Ip.trl o n | tr o, n => Transport.trl o n | app o, n => App.trl o n
+  | l2 o, n => L2.trl o n | ip o, n => Ip.trl o n | ip6 o, n => Ip6.trl o n | icmp o, n => Icmp.trl o n | tr o, n => Transport.trl o n | app o, n => App.trl o n
   | wifi o, n => Wifi.trl o n
 
 def write (cx : Ctx) : AnyObj → Bytes → Out Bytes
   | raw p, region => writeAtStart region p          -- RawPDU::write_serialization
-  | l2 o, r => L2.write cx o r | ip o, r => Ip.write cx o r | tr o, r => Transport.write cx o r
+  | l2 o, r => L2.write cx o r | ip o, r => Ip.write cx o r | ip6 o, r => Ip6.write cx o r | icmp o, r => Icmp.write cx o r | tr o, r => Transport.write cx o r
   | app o, r => App.write cx o r | wifi o, r => Wifi.write cx o r
 
 def apply : AnyObj → List String → Out AnyObj
@@ -47,6 +51,8 @@ def apply : AnyObj → List String → Out AnyObj
   | raw p, _ => .ok (raw p)
   | l2 o, op => (L2.apply o op) >>= fun x => pure (l2 x)
   | ip o, op => (Ip.apply o op) >>= fun x => pure (ip x)
+  | ip6 o, op => (Ip6.apply o op) >>= fun x => pure (ip6 x)
+  | icmp o, op => (Icmp.apply o op) >>= fun x => pure (icmp x)
   | tr o, op => (Transport.apply o op) >>= fun x => pure (tr x)
   | app o, op => (App.apply o op) >>= fun x => pure (app x)
   | wifi o, op => (Wifi.apply o op) >>= fun x => pure (wifi x)
@@ -55,13 +61,15 @@ end AnyObj
 
 /-- is the parsing constructor of `cls` modelled by some family? -/
 def modelled (cls : String) : Bool :=
-  cls == "RawPDU" || L2.classes.contains cls || Ip.classes.contains cls || Transport.classes.contains cls ||
+  cls == "RawPDU" || L2.classes.contains cls || Ip.classes.contains cls || Ip6.classes.contains cls || Icmp.classes.contains cls || Transport.classes.contains cls ||
   App.classes.contains cls || Wifi.classes.contains cls
 
 def parseOne (cls : String) (b : Bytes) : Out (AnyObj × Inner) :=
   if cls == "RawPDU" then .ok (.raw b, .none)
   else if L2.classes.contains cls then (L2.parse cls b) >>= fun (o, i) => pure (.l2 o, i)
   else if Ip.classes.contains cls then (Ip.parse cls b) >>= fun (o, i) => pure (.ip o, i)
+  else if Ip6.classes.contains cls then (Ip6.parse cls b) >>= fun (o, i) => pure (.ip6 o, i)
+  else if Icmp.classes.contains cls then (Icmp.parse cls b) >>= fun (o, i) => pure (.icmp o, i)
   else if Transport.classes.contains cls then (Transport.parse cls b) >>= fun (o, i) => pure (.tr o, i)
   else if App.classes.contains cls then (App.parse cls b) >>= fun (o, i) => pure (.app o, i)
   else if Wifi.classes.contains cls then (Wifi.parse cls b) >>= fun (o, i) => pure (.wifi o, i)
